@@ -434,6 +434,43 @@ func sessionsCase(r *common.Run, c int) {
 	finalHash, _ := a.sm.GetHash()
 	finalDigest := ua.st.digest()
 
+	// C: the same stream through a concurrent state machine, whose updates may take the batched
+	// apply path (several entries handed to Update at once, bypassing the session table when all of
+	// them are NoOP-session entries): outputs and the user state machine's call stream must be the
+	// model's whatever the task boundaries are
+	for pass := 0; pass < 2; pass++ {
+		uc := newConSM()
+		cm := newConMachine(sessCfg(), uc, newMemSnapshotter())
+		sizes := randSizes(rng)
+		if pass == 1 {
+			sizes = []int{2 + rng.Intn(3), 1 + rng.Intn(2), -2, 3}
+		}
+		if err := cm.feed(copyEntries(ents), sizes); err != nil {
+			r.Violation("sessions:apply-error", fmt.Sprintf("case %d concurrent SM: %v", c, err), wit(0, 0, "", "", err.Error()))
+			return
+		}
+		for i, e := range ents {
+			if e.IsConfigChange() {
+				continue
+			}
+			if got := cm.node.outs[e.Index]; got != want[i] {
+				r.Violation("sessions:concurrent-sm:output-differs-from-model:"+classes[i],
+					fmt.Sprintf("case %d index %d (%s), task sizes %v: want %v got %v", c, e.Index, classes[i], sizes, want[i], got),
+					wit(e.Index, 0, classes[i], want[i].String(), got.String()))
+				return
+			}
+		}
+		if d := diffCalls(m.applied, uc.calls); d != "" {
+			r.Violation("sessions:concurrent-sm:update-calls-differ-from-model", fmt.Sprintf("case %d task sizes %v: %s", c, sizes, d), wit(0, 0, "", fmt.Sprint(m.applied), fmt.Sprint(uc.calls)))
+			return
+		}
+		if cm.sm.GetSessionHash() != finalSess {
+			r.Violation("sessions:concurrent-sm:session-hash-differs", fmt.Sprintf("case %d task sizes %v: session hash %x, the plain state machine run has %x", c, sizes, cm.sm.GetSessionHash(), finalSess), wit(0, 0, "", "", ""))
+			return
+		}
+		r.Count("concurrent_sm_passes", 1)
+	}
+
 	// B: one entry at a time, a snapshot after every index; twins from each
 	ub := newRegSM()
 	ssb := newMemSnapshotter()
